@@ -67,6 +67,30 @@ def border_axis(t):
     return None
 
 
+def small_shape_test(t, arr):
+    """True iff `t` can only hold for rasters with fewer than 3 rows or columns:
+    an `or` of `arr.shape[i] < c` (c <= 3) / `arr.shape[i] <= c` (c <= 2) / `min(arr.shape) < c`"""
+    if isinstance(t, ast.BoolOp) and isinstance(t.op, ast.Or):
+        return all(small_shape_test(v, arr) for v in t.values)
+    if isinstance(t, ast.Compare) and len(t.ops) == 1 and isinstance(t.comparators[0], ast.Constant) \
+            and isinstance(t.comparators[0].value, int):
+        c = t.comparators[0].value
+        lim = 3 if isinstance(t.ops[0], ast.Lt) else 2 if isinstance(t.ops[0], ast.LtE) else None
+        if lim is None or c > lim:
+            return False
+        src = ast.unparse(t.left)
+        return src in (f"{arr}.shape[0]", f"{arr}.shape[1]", f"min({arr}.shape)", f"{arr}.shape[-1]", f"{arr}.shape[-2]")
+    return False
+
+
+def all_nan_return(st, arr):
+    """`return np.full(arr.shape, np.nan[, dtype])`"""
+    if not (isinstance(st, ast.Return) and isinstance(st.value, ast.Call) and call_name(st.value.func) == "full"):
+        return False
+    a = st.value.args
+    return len(a) >= 2 and ast.unparse(a[0]) == f"{arr}.shape" and is_nan(a[1])
+
+
 def hillshade_kernel(repo):
     rel = "xrspatial/hillshade.py"
     mod = parse(repo, rel)
@@ -81,6 +105,11 @@ def hillshade_kernel(repo):
     last_assign = {}
     for idx, st in enumerate(func.body):
         if isinstance(st, ast.Expr) and isinstance(st.value, ast.Constant):
+            continue
+        if isinstance(st, ast.If) and not st.orelse and len(st.body) == 1 and all_nan_return(st.body[0], arr) \
+                and small_shape_test(st.test, arr):
+            # rasters without an interior answered early with all-NaN: what margins (1,1,1,1) give anyway
+            tr.casts.append("small-raster guard: " + ast.unparse(st.test))
             continue
         if isinstance(st, ast.Return):
             if not isinstance(st.value, ast.Name):
